@@ -25,7 +25,7 @@ package podgroup_info
 //@   pure
 //@   loop 1
 //@     invariant numTasksToAllocate >= 0
-//@     invariant numTasksToAllocate > 0 <==> (exists k in visited :: wantsAlloc(subGroup.podInfos[k], isRealAllocation))
+//@     invariant numTasksToAllocate > 0 <==> (exists k in visited :: k in subGroup.podInfos && wantsAlloc(subGroup.podInfos[k], isRealAllocation))
 //@   ensures result >= 0
 //@   ensures result > 0 <==> (exists k in subGroup.podInfos :: wantsAlloc(subGroup.podInfos[k], isRealAllocation))
 //@ end
@@ -39,4 +39,106 @@ package podgroup_info
 //@   pure
 //@   ensures [missingToMin] subGroup.numActiveAllocatedTasks < subGroup.minAvailable ==> result == subGroup.minAvailable - subGroup.numActiveAllocatedTasks
 //@   ensures [oneAtATime] subGroup.numActiveAllocatedTasks >= subGroup.minAvailable ==> result == ite(exists k in subGroup.podInfos :: wantsAlloc(subGroup.podInfos[k], isRealAllocation), 1, 0)
+//@ end
+
+// no nil pod set in the workload (established by subgroup_info.FromPodGroup / GetAllPodSets, see C10)
+//@ define setsOK(pgi *PodGroupInfo) bool = pgi != nil && (forall k in pgi.PodSets :: pgi.PodSets[k] != nil)
+// gang threshold of one pod set
+//@ define belowMin(ps *sgi.PodSet) bool = ps.numActiveAllocatedTasks < ps.minAvailable
+//@ define aboveMin(ps *sgi.PodSet) bool = ps.numActiveAllocatedTasks > ps.minAvailable
+
+// C03 (DESIGN): "all unsatisfied pod sets are included" in one allocation attempt; if none is unsatisfied one pod set
+// (elastic growth). The exact number of unsatisfied pod sets is a count over a map (no closed formula in the spec
+// language; `len(visited)` is not available): decided here are the bounds and the two cases that fix the branch
+// structure: exactly 1 when no pod set is below its minimum, and > 0 unsatisfied ==> the count itself is returned
+// (numUnsatisfied, not 1) is visible only through `result >= 1`.
+//@ func getMaxNumSubGroupsToAllocate
+//@   props C03
+//@   requires setsOK(podGroupInfo)
+//@   pure
+//@   loop 1
+//@     invariant 0 <= numUnsatisfied
+//@     invariant numUnsatisfied > 0 <==> (exists k in visited :: k in podGroupInfo.PodSets && belowMin(podGroupInfo.PodSets[k]))
+//@   ensures [atLeastOne] result >= 1
+//@   ensures [elasticOne] (forall k in podGroupInfo.PodSets :: !belowMin(podGroupInfo.PodSets[k])) ==> result == 1
+//@ end
+
+// ---- eviction_info.go ---------------------------------------------------------
+// C03 top: "when it evicts pods of a workload it either keeps every pod set at or above its minimum (elastic shrink)
+// or evicts all of the workload's active pods": from a pod set with surplus exactly one task is taken, otherwise
+// all of its active allocated tasks.
+//@ func getMaxTasksToEvict
+//@   props C03
+//@   requires subGroup != nil
+//@   pure
+//@   ensures result == ite(aboveMin(subGroup), 1, subGroup.numActiveAllocatedTasks)
+//@   ensures [keepsMin] aboveMin(subGroup) ==> subGroup.numActiveAllocatedTasks - result >= subGroup.minAvailable
+//@   ensures [orAll] !aboveMin(subGroup) ==> subGroup.numActiveAllocatedTasks - result == 0
+//@ end
+
+// C03 top: one pod set (the one with surplus) if some pod set is above its minimum, otherwise every pod set.
+//@ func getNumOfSubGroupsToEvict
+//@   props C03
+//@   requires setsOK(podGroupInfo)
+//@   pure
+//@   loop 1
+//@     invariant forall k in visited :: !aboveMin(podGroupInfo.PodSets[k])
+//@   ensures result == ite(exists k in podGroupInfo.PodSets :: aboveMin(podGroupInfo.PodSets[k]), 1, len(podGroupInfo.PodSets))
+//@ end
+
+// ---- job_info.go: gang predicates ----------------------------------------------
+//@ define allTasksOK(pgi *PodGroupInfo) bool = pgi != nil && (forall k in pgi.PodSets :: tasksOK(pgi.PodSets[k]))
+//@ define hasPipelined(ps *sgi.PodSet) bool = exists u in ps.podInfos :: ps.podInfos[u].Status == pod_status.Pipelined
+// an active allocated task that is really placed (not merely nominated)
+//@ define hasPlaced(ps *sgi.PodSet) bool = exists u in ps.podInfos :: ps.podInfos[u].Status != pod_status.Pipelined && pod_status.inActiveAllocated(ps.podInfos[u].Status)
+
+// C03 top: "If only part of a gang can be bound now and the rest must wait for terminating capacity, the whole gang
+// is nominated and nothing is bound": result <==> exists pod set with a Pipelined task and fewer placed (non-pipelined
+// active allocated) tasks than its minimum. The number of placed tasks is a count over a map; decided here:
+// [only]  result ==> some pod set has a Pipelined task and a positive minimum (0 <= placed < min),
+// [sure]  a pod set with a Pipelined task, a positive minimum and no placed task ==> result,
+// [never] no pod set with a Pipelined task, or every minimum <= 0 ==> !result  (catches `<` -> `<=`).
+//@ func (*PodGroupInfo).ShouldPipelineJob
+//@   props C03
+//@   requires allTasksOK(pgi)
+//@   pure
+//@   loop 1
+//@     invariant forall k in visited :: !(hasPipelined(pgi.PodSets[k]) && !hasPlaced(pgi.PodSets[k]) && pgi.PodSets[k].minAvailable >= 1)
+//@   loop 2
+//@     invariant activeAllocatedTasksCount >= 0
+//@     invariant hasPipelinedTask <==> (exists u in visited :: u in podSet.podInfos && podSet.podInfos[u].Status == pod_status.Pipelined)
+//@     invariant activeAllocatedTasksCount > 0 <==> (exists u in visited :: u in podSet.podInfos && podSet.podInfos[u].Status != pod_status.Pipelined && pod_status.inActiveAllocated(podSet.podInfos[u].Status))
+//@   ensures [only] result ==> (exists k in pgi.PodSets :: hasPipelined(pgi.PodSets[k]) && pgi.PodSets[k].minAvailable >= 1)
+//@   ensures [sure] (exists k in pgi.PodSets :: hasPipelined(pgi.PodSets[k]) && !hasPlaced(pgi.PodSets[k]) && pgi.PodSets[k].minAvailable >= 1) ==> result
+//@   ensures [never] (forall k in pgi.PodSets :: !hasPipelined(pgi.PodSets[k]) || pgi.PodSets[k].minAvailable <= 0) ==> !result
+//@ end
+
+// C03: "every pod set ... has at least its minimum member count of active pods": gang satisfied <==> every pod set has.
+//@ func (*PodGroupInfo).IsGangSatisfied
+//@   props C03
+//@   requires setsOK(pgi)
+//@   pure
+//@   loop 1
+//@     invariant forall k in visited :: pgi.PodSets[k].numActiveUsedTasks >= pgi.PodSets[k].minAvailable
+//@   ensures result == (forall k in pgi.PodSets :: pgi.PodSets[k].numActiveUsedTasks >= pgi.PodSets[k].minAvailable)
+//@ end
+
+// C03 (DESIGN): ready <==> in every pod set alive - gated >= min (enough schedulable pods to reach the minimum)
+//@ func (*PodGroupInfo).IsReadyForScheduling
+//@   props C03
+//@   requires setsOK(pgi)
+//@   pure
+//@   loop 1
+//@     invariant forall k in visited :: pgi.PodSets[k].numAliveTasks - len(pgi.PodSets[k].podStatusIndex[pod_status.Gated]) >= pgi.PodSets[k].minAvailable
+//@   ensures result == (forall k in pgi.PodSets :: pgi.PodSets[k].numAliveTasks - len(pgi.PodSets[k].podStatusIndex[pod_status.Gated]) >= pgi.PodSets[k].minAvailable)
+//@ end
+
+// C06: "elastic workloads only down to their minimum size": elastic <==> some pod set has more pods than its minimum
+//@ func (*PodGroupInfo).IsElastic
+//@   props C03 C06
+//@   requires setsOK(pgi)
+//@   pure
+//@   loop 1
+//@     invariant forall k in visited :: !(pgi.PodSets[k].minAvailable < len(pgi.PodSets[k].podInfos))
+//@   ensures result == (exists k in pgi.PodSets :: pgi.PodSets[k].minAvailable < len(pgi.PodSets[k].podInfos))
 //@ end
